@@ -8,7 +8,7 @@ from z3 import And, BoolVal, ForAll, If, Implies, Not, Or
 from vlib.vc import model as M
 from vlib.vc.model import A, A2, isref  # noqa
 from vlib.vc.symex import Contract, Raise, DictV
-from vlib.vc.contracts_bdd import reg, wf, l_, n_, x_  # noqa
+from vlib.vc.contracts_bdd import REG, reg, wf, l_, n_, x_  # noqa
 
 U0 = {'rc', 'cache', 'order'}
 U1 = {'rc', 'cache', 'order', 'sem2'}
@@ -119,3 +119,72 @@ reg(Contract('dd.bdd.BDD.undeclare_vars!observed', [('self', 'mgr'), ('vrs', 'se
              raises={'ValueError': Raise(when=und_bad, must=True)}, assumed=True,
              note='observed contract (cross-checked on real executions; not used by proofs)'))
 M.REG_FREE_GHOST['dd.bdd.BDD.undeclare_vars!observed'] = {'A2'}
+
+
+# ---------------------------------------------------------------------------------------------------------------------
+# pick_iter / pick / cube (C10, C01): observed contracts. The result of pick_iter is a finite list of assignments (dicts name ->
+# bool); the clauses are built per element (the list is concrete when the contract is evaluated on a real execution).
+from vlib.vc.model import semr  # noqa: E402
+
+
+def consistent(S, d):
+    """the arbitrary assignment A agrees with the (partial) assignment d on every variable d mentions"""
+    return ForAll([n_], Implies(d.has[n_], And(S.vin[n_], A[S.v2l[n_]] == d.val[n_])), patterns=[d.has[n_]])
+
+
+def pick_iter_post(c):
+    S, a, rs = c.S0, c.a, c.r          # rs: python list of DictV
+    care = a.care_vars
+    out = [('state-unchanged', M.keep(S, c.S1))]
+    for k, d in enumerate(rs):
+        out.append((f'assignment[{k}]-satisfies-u-however-completed', Implies(consistent(S, d), semr(S, a.u))))
+        out.append((f'assignment[{k}]-mentions-every-care-variable', ForAll([n_], Implies(care.has[n_], d.has[n_]), patterns=[care.has[n_]])))
+    for k1 in range(len(rs)):
+        for k2 in range(k1 + 1, len(rs)):
+            out.append((f'assignments[{k1},{k2}]-do-not-overlap', Not(And(consistent(S, rs[k1]), consistent(S, rs[k2])))))
+    out.append(('assignments-cover-the-models', Implies(semr(S, a.u), Or(*[consistent(S, d) for d in rs]) if rs else BoolVal(False))))
+    return out
+
+
+reg(Contract('dd.bdd.BDD.pick_iter!observed', [('self', 'mgr'), ('u', 'int'), ('care_vars', 'set:name')],
+             pre=lambda c: wf(c.S, {'order'}) + [('ref', isref(c.S, c.a.u)),
+                                                ('care-variables-declared', ForAll([n_], Implies(c.a.care_vars.has[n_], c.S.vin[n_]),
+                                                                                  patterns=[c.a.care_vars.has[n_]]))],
+             post=pick_iter_post, ret='list-of-assignments', uses={'order'}, assumed=True,
+             note='observed contract (cross-checked on real executions; not used by proofs); care_vars is the support when omitted'))
+
+
+def cube_post(c):
+    S0, S1, a, r = c.S0, c.S1, c.a, c.r
+    d = a.dvars
+    return wf(S1, {'rc', 'cache', 'order'}) + [
+        ('conjunction-of-literals', And(isref(S1, r), semr(S1, r) == ForAll([n_], Implies(d.has[n_], A[S0.v2l[n_]] == d.val[n_]), patterns=[d.has[n_]]))),
+        ('existing-nodes-kept', M.Ext(S0, S1, {'cache', 'order'}))]
+
+
+reg(Contract('dd.bdd.BDD.cube!observed', [('self', 'mgr'), ('dvars', 'dict:name->bool')],
+             pre=lambda c: wf(c.S, {'rc', 'cache', 'order'}) + [('quiet', c.S.lastlen < 0),
+                                                               ('declared', ForAll([n_], Implies(c.a.dvars.has[n_], c.S.vin[n_]), patterns=[c.a.dvars.has[n_]]))],
+             post=cube_post, modifies=M.ALLF, ret='int', uses={'rc', 'cache', 'order'}, assumed=True,
+             note='observed contract (cross-checked on real executions; not used by proofs)'))
+M.REG_ALL_ASSIGNMENTS = {'dd.bdd.BDD.pick_iter!observed', 'dd.bdd.BDD.cube!observed'}    # judged under every assignment (<= 4 variables)
+
+
+def pick_post(c):
+    S, a, r = c.S0, c.a, c.r           # r: None or a DictV
+    out = [('state-unchanged', M.keep(S, c.S1))]
+    if r is None:
+        out.append(('None-only-for-the-unsatisfiable-function', Not(semr(S, a.u))))
+    else:
+        out.append(('assignment-satisfies-u-however-completed', Implies(consistent(S, r), semr(S, a.u))))
+        out.append(('assignment-mentions-every-care-variable', ForAll([n_], Implies(a.care_vars.has[n_], r.has[n_]), patterns=[a.care_vars.has[n_]])))
+    return out
+
+
+reg(Contract('dd.bdd.BDD.pick!observed', REG['dd.bdd.BDD.pick_iter!observed'].params if False else [('self', 'mgr'), ('u', 'int'), ('care_vars', 'set:name')],
+             pre=lambda c: wf(c.S, {'order'}) + [('ref', isref(c.S, c.a.u)),
+                                                ('care-variables-declared', ForAll([n_], Implies(c.a.care_vars.has[n_], c.S.vin[n_]),
+                                                                                  patterns=[c.a.care_vars.has[n_]]))],
+             post=pick_post, ret='optional-assignment', uses={'order'}, assumed=True,
+             note='observed contract (cross-checked on real executions; not used by proofs)'))
+M.REG_ALL_ASSIGNMENTS.add('dd.bdd.BDD.pick!observed')
